@@ -14,23 +14,35 @@
 (*   beginRWTx db.go:839-872   rwlock ; metalock ; -metalock               *)
 (*   mmap      db.go:456-458   mmaplock.W ; -mmaplock.W   (writer only)    *)
 (*   writeMeta tx.go:606-612   metalock ; -metalock                        *)
-(*   tx.close  tx.go:345-378   -rwlock                                     *)
+(*   tx.close  tx.go:345-395   statlock ; publish freelist statistics ;    *)
+(*                             -statlock ; -rwlock                         *)
 (*   Close     db.go:694-705   rwlock ; metalock ; mmaplock.W ; release    *)
 (* Go's sync.RWMutex blocks new readers while a writer waits (mmWait).     *)
+(* Statistics: a closing writer publishes the free-list counts it sampled  *)
+(* while it still was the writer.  StatsAfterUnlock = TRUE is the order of *)
+(* the pinned tree (publish after -rwlock): the next writer can publish    *)
+(* first and is then overwritten by older numbers (StatsFresh fails; the   *)
+(* defect repaired by the "fix: freelist statistics ..." commit).          *)
 (***************************************************************************)
 EXTENDS Integers, FiniteSets, TLC
-CONSTANTS NT, MaxOps      \* goroutines 1..NT, operations per goroutine
+CONSTANTS NT, MaxOps,     \* goroutines 1..NT, operations per goroutine
+          TrackStats,      \* FALSE switches the statistics bookkeeping off (larger configurations)
+          StatsAfterUnlock \* FALSE = the code as repaired, TRUE = the pinned order (model mutant)
 T == 1..NT
-VARIABLES pc, ops, rw, meta, mmR, mmW, mmWait, opened, remapped, readersReg
-vars == <<pc, ops, rw, meta, mmR, mmW, mmWait, opened, remapped, readersReg>>
+VARIABLES pc, ops, rw, meta, mmR, mmW, mmWait, opened, remapped, readersReg,
+          lastW, statOf   \* the goroutine of the newest write transaction ; the goroutine whose statistics are published
+vars == <<pc, ops, rw, meta, mmR, mmW, mmWait, opened, remapped, readersReg, lastW, statOf>>
+svars == <<lastW, statOf>>
 
 Init == /\ pc = [t \in T |-> "idle"] /\ ops = [t \in T |-> 0] /\ rw = 0 /\ meta = 0 /\ mmR = {} /\ mmW = 0 /\ mmWait = 0
         /\ opened = TRUE /\ remapped = [t \in T |-> FALSE] /\ readersReg = {}
+        /\ lastW = 0 /\ statOf = 0
 
 Goto(t, l) == pc' = [pc EXCEPT ![t] = l]
 Start(t, l) == /\ pc[t] = "idle" /\ ops[t] < MaxOps /\ ops' = [ops EXCEPT ![t] = @ + 1] /\ Goto(t, l)
-               /\ UNCHANGED <<rw, meta, mmR, mmW, mmWait, opened, remapped, readersReg>>
-Keep(S) == UNCHANGED S
+               /\ UNCHANGED <<rw, meta, mmR, mmW, mmWait, opened, remapped, readersReg>> /\ UNCHANGED svars
+Keep(S) == UNCHANGED S /\ UNCHANGED svars
+KeepL(S) == UNCHANGED S
 
 \* ---- read transaction
 R1(t) == pc[t] = "r1" /\ meta = 0 /\ meta' = t /\ Goto(t, "r2") /\ Keep(<<ops, rw, mmR, mmW, mmWait, opened, remapped, readersReg>>)
@@ -50,7 +62,8 @@ W2(t) == /\ pc[t] = "w2" /\ meta = 0 /\ meta' = t
          /\ IF opened THEN Goto(t, "w3") ELSE Goto(t, "wx")
          /\ remapped' = [remapped EXCEPT ![t] = FALSE] /\ Keep(<<ops, rw, mmR, mmW, mmWait, opened, readersReg>>)
 WX(t) == pc[t] = "wx" /\ meta' = 0 /\ rw' = 0 /\ Goto(t, "idle") /\ Keep(<<ops, mmR, mmW, mmWait, opened, remapped, readersReg>>)
-W3(t) == pc[t] = "w3" /\ meta' = 0 /\ Goto(t, "w4") /\ Keep(<<ops, rw, mmR, mmW, mmWait, opened, remapped, readersReg>>)
+W3(t) == /\ pc[t] = "w3" /\ meta' = 0 /\ Goto(t, "w4") /\ KeepL(<<ops, rw, mmR, mmW, mmWait, opened, remapped, readersReg>>)
+         /\ lastW' = (IF TrackStats THEN t ELSE 0) /\ statOf' = statOf
 \* in the transaction: commit, roll back, or first remap (allocate at the end of the map)
 W4commit(t) == pc[t] = "w4" /\ Goto(t, "w5") /\ Keep(<<ops, rw, meta, mmR, mmW, mmWait, opened, remapped, readersReg>>)
 W4rollback(t) == pc[t] = "w4" /\ Goto(t, "w7") /\ Keep(<<ops, rw, meta, mmR, mmW, mmWait, opened, remapped, readersReg>>)
@@ -60,7 +73,15 @@ M1(t) == pc[t] = "m1" /\ mmR = {} /\ mmW = 0 /\ mmW' = t /\ mmWait' = 0 /\ Goto(
 M2(t) == pc[t] = "m2" /\ mmW' = 0 /\ Goto(t, "w4") /\ Keep(<<ops, rw, meta, mmR, mmWait, opened, remapped, readersReg>>)
 W5(t) == pc[t] = "w5" /\ meta = 0 /\ meta' = t /\ Goto(t, "w6") /\ Keep(<<ops, rw, mmR, mmW, mmWait, opened, remapped, readersReg>>)
 W6(t) == pc[t] = "w6" /\ meta' = 0 /\ Goto(t, "w7") /\ Keep(<<ops, rw, mmR, mmW, mmWait, opened, remapped, readersReg>>)
-W7(t) == pc[t] = "w7" /\ rw' = 0 /\ Goto(t, "idle") /\ Keep(<<ops, meta, mmR, mmW, mmWait, opened, remapped, readersReg>>)
+\* tx.close: publish the statistics, release the writer lock - in the order StatsAfterUnlock selects
+W7(t) == /\ pc[t] = "w7"
+         /\ IF StatsAfterUnlock THEN rw' = 0 /\ Goto(t, "w8") /\ UNCHANGED svars
+            ELSE rw' = rw /\ Goto(t, "w8") /\ statOf' = (IF TrackStats THEN t ELSE 0) /\ UNCHANGED lastW
+         /\ KeepL(<<ops, meta, mmR, mmW, mmWait, opened, remapped, readersReg>>)
+W8(t) == /\ pc[t] = "w8"
+         /\ IF StatsAfterUnlock THEN rw' = rw /\ statOf' = (IF TrackStats THEN t ELSE 0) /\ UNCHANGED lastW
+            ELSE rw' = 0 /\ UNCHANGED svars
+         /\ Goto(t, "idle") /\ KeepL(<<ops, meta, mmR, mmW, mmWait, opened, remapped, readersReg>>)
 
 \* ---- Close
 C1(t) == pc[t] = "c1" /\ rw = 0 /\ rw' = t /\ Goto(t, "c2") /\ Keep(<<ops, meta, mmR, mmW, mmWait, opened, remapped, readersReg>>)
@@ -74,15 +95,19 @@ Done == /\ \A t \in T : pc[t] = "idle" /\ ops[t] = MaxOps
 
 Next == \/ \E t \in T : Start(t, "r1") \/ Start(t, "w1") \/ Start(t, "c1")
         \/ \E t \in T : R1(t) \/ R2(t) \/ RX(t) \/ R3(t) \/ R4(t) \/ R5(t) \/ R6(t)
-        \/ \E t \in T : W1(t) \/ W2(t) \/ WX(t) \/ W3(t) \/ W4commit(t) \/ W4rollback(t) \/ W4remap(t) \/ M1(t) \/ M2(t) \/ W5(t) \/ W6(t) \/ W7(t)
+        \/ \E t \in T : W1(t) \/ W2(t) \/ WX(t) \/ W3(t) \/ W4commit(t) \/ W4rollback(t) \/ W4remap(t) \/ M1(t) \/ M2(t) \/ W5(t) \/ W6(t) \/ W7(t) \/ W8(t)
         \/ \E t \in T : C1(t) \/ C2(t) \/ C3(t) \/ C4(t) \/ C5(t)
         \/ Done
 Spec == Init /\ [][Next]_vars /\ WF_vars(Next)
 
 \* C03: at most one writer; C02: the map is never replaced while a reader holds it
-OneWriter == Cardinality({t \in T : pc[t] \in {"w2", "w3", "w4", "m1", "m2", "w5", "w6", "w7", "wx"}}) <= 1
+Writing == {t \in T : pc[t] \in {"w2", "w3", "w4", "m1", "m2", "w5", "w6", "w7", "wx"} \/ (pc[t] = "w8" /\ ~StatsAfterUnlock)}
+OneWriter == Cardinality(Writing) <= 1
 NoRemapUnderReaders == mmW # 0 => mmR = {}
 MetaExclusive == Cardinality({t \in T : pc[t] \in {"r2", "r3", "rx", "r6", "w3", "wx", "w6"}}) <= 1
+\* the published free-list statistics are those of the newest finished write transaction: whenever every write
+\* transaction that started has returned, the published numbers are the last one's
+StatsFresh == (\A t \in T : pc[t] \notin {"w4", "m1", "m2", "w5", "w6", "w7", "w8"}) => statOf = lastW
 \* liveness: every goroutine always gets back to idle
 AllReturn == \A t \in T : []<>(pc[t] = "idle")
 =============================================================================
